@@ -93,8 +93,14 @@ theorem cgE_labels (mod : String) (ρ φ : String → Option String) : ∀ (n : 
     · intro e lm hd
       cases e
       case int | bool | str | null | none | float | range | anyobj | lambda | assign
-          | cast | blockE | tryE =>
+          | blockE | tryE =>
         exact LblInv.nil mod lm
+      case cast sp ty e =>
+        have := ihE e lm (by simp only [Frag.depthGE] at hd; omega)
+        simp only [cgE, definedLabels_append,
+          definedLabels_instr _ _ _ (rfl : isLabel (Instr.cast _ _ : SInstr) = false), definedLabels_nil,
+          List.append_nil]
+        exact this
       case obj sp ty fs =>
         simp only [cgE, definedLabels_append,
           definedLabels_instr _ _ _ (rfl : isLabel (Instr.cloningPush _ : SInstr) = false), definedLabels_nil,
